@@ -917,6 +917,14 @@ impl ElementRaw {
         self.content
             .insert(position, ElementContent::Element(move_element.clone()));
 
+        // (the model is not needed any more: release it before locking the moved elements)
+        drop(model_locked);
+        // the moved element and its sub elements now belong to the files of the new parent element: a file set that was
+        // assigned relative to the old parent could name files that do not contain the new parent (or files of another model)
+        for (_, moved) in move_element.elements_dfs() {
+            moved.0.write().file_membership.clear();
+        }
+
         Ok(move_element.clone())
     }
 
@@ -1022,6 +1030,12 @@ impl ElementRaw {
         // insert move_element
         self.content
             .insert(position, ElementContent::Element(move_element.clone()));
+
+        // the moved element and its sub elements now belong to the files of the new parent element: a file set that was
+        // assigned relative to the old parent could name files that do not contain the new parent (or files of another model)
+        for (_, moved) in move_element.elements_dfs() {
+            moved.0.write().file_membership.clear();
+        }
 
         Ok(move_element.clone())
     }
